@@ -36,16 +36,16 @@ CHECKS = {
    text="For every cell type and requested degree (0..30 thorough; 9 degrees quick) one kernel with the monomial exponents as constants is executed for several monomials of the maximal admissible degree on random rational affine cells and compared with exact closed forms (arity 0/1, exterior facets, GLL/Gauss-Jacobi); polynomial forms without metadata and the vertex scheme likewise; rule mixtures and quadrature elements are compared with the oracle applying each rule to its own integrand.",
    note="Closed forms are independent of UFL/basix quadrature (exact rational polynomial algebra). Enumerated sub-space is exhaustive in (cell, degree) only; monomials are sampled.", ref="3/C11"),
  "C12": dict(cat="exploration", technique="byte comparison of generator output across fresh processes with varied PYTHONHASHSEED and process histories",
-   text="Recipes covering all integral types, mixed elements, several forms per module and expressions, for the C and numba backends, are generated in fresh processes under hash seeds {0,1,2,3,random} and histories {none, unrelated objects first, other forms compiled first, compiled twice, built early}; all outputs must be byte-identical to the baseline; a difference is classified by mechanism from the line diff.",
+   text="Recipes covering all integral types, mixed elements, several forms per module and expressions, for the C and numba backends, are generated in fresh processes under hash seeds {0,1,2,3,random} and histories {none, unrelated objects first, other forms compiled first, compiled twice, built early, hostile = related requests (same cell/degrees with macro elements, loose tolerances, other scalar type) compiled first}; all outputs must be byte-identical to the baseline; a difference is classified by mechanism from the line diff.",
    note="Three genuine defects found and fixed in /repo (comment set order, mesh-id in Jacobian names, FE numbering from a set).", ref="3/C12"),
  "C13": dict(cat="exploration", technique="names observed through jit.compile_* (aborted before the compiler) in fresh processes: stability under hash seed/history/creation order; near-miss request pairs with kernel-text digests; name monitor",
    text="Module and object names of requests (forms, several forms, expressions) are computed by the real JIT entry points in fresh processes under varied hash seeds and histories and must be identical; near-miss request pairs (one literal/index/coefficient/degree/power, evaluation points at 1e-10/1e-6/dtype/order/count/inside a >1000-element array, scalar type, each option, compiler flags, form order) must get different module names whenever their generated kernels or options differ; object names must be distinct valid identifiers.",
    note="Two genuine defects found and fixed (repr(points) truncation; duplicate expression names). Separation can only be observed for generated pairs.", ref="3/C13"),
  "C14": dict(cat="exploration", technique="history monitor: per-process audit-hook event logs (CLOCK_MONOTONIC) with injected delays at the protocol's own file-system events, merged and checked offline against the protocol invariants; every process checks its kernels against the oracle",
-   text="Histories of 2..16 fresh processes released by a barrier on one cache directory with seeded delay plans and staggered arrivals, three request kinds and a second wave; the offline checker decides single lock holder, single compiler launch, no load before/without the marker or of a non-final shared object, correct kernels everywhere, no failure, reuse without recompiling. Evidence lists the number of distinct interleavings observed.",
+   text="Histories of 2..16 fresh processes released by a barrier on one cache directory with seeded delay plans and staggered arrivals, three request kinds, per-process string-hash seeds, several compile flags, optionally a stale .c.failed left by an earlier failed build, and a second wave; the offline checker decides single lock holder, single compiler launch, no load before/without the marker or of a non-final shared object, correct kernels everywhere, no failure, reuse without recompiling. Evidence lists the number of distinct interleavings observed.",
    note="Granularity is the audit-event level; local file system; no liveness claim (bounded by timeout polls, watchdog => inconclusive).", ref="3/C14"),
  "C15": dict(cat="fault_enumeration", technique="fault injection at the protocol's audit events (SIGKILL before event k, timed kills after compiler/linker launch, CC-wrapper transient failures, code-generation exception) + process-state snapshots + later-request sequences checked against the oracle",
-   text="Every failure kind is followed by requests in the same and another process (must raise, release the lock, leave root-logger handlers/stdout/cwd untouched, and rebuild correctly afterwards); every kill point of the builder is followed by later-request sequences that must return oracle-correct kernels loaded with the marker present, or raise.",
+   text="Every failure kind (code-generation exception, bad flag, transient compiler/link failure, missing library) and KeyboardInterrupt at protocol events is followed by requests in the same and another process (must raise, release the lock, leave root-logger handlers/stdout/cwd untouched, and rebuild correctly afterwards); every kill point of the builder is followed by later-request sequences that must return oracle-correct kernels loaded with the marker present, or raise.",
    note="Process death only. One genuine defect found and fixed (handlers not restored on failure).", ref="3/C15"),
  "C17": dict(cat="exploration", technique="AST interpreter as reference: exhaustive operator-overload matrix vs plain arithmetic; before/after interpretation of every real optimizer.optimize call under a deterministic lazy environment; kernels with passes disabled vs enabled vs oracle",
    text="All operand-kind pairs x operators (direct, reflected, negation, float_product, MultiIndex.global_index) built through the overloads must evaluate to plain arithmetic on the operand values; every optimize call made while compiling the corpus is replayed (deep copy before, result after) in the bounds-checked interpreter and must write identical values; whole kernels generated with the passes replaced by the identity must agree with the normal kernels and the oracle.",
@@ -54,7 +54,7 @@ CHECKS = {
    text="Every form/expression of the corpus that the C backend accepts is generated with language='numba'; the module must be valid Python, each kernel must stay inside the carray sizes it declares and the buffers the contract gives, and must equal the C kernel (5e4 eps) and the oracle; every descriptor field (form, integral, expression) must equal the C descriptor's.",
    note="Quick tier executes the module as plain Python (numba type inference/compilation not exercised). Four numba defects found and fixed (plus the spellings fixed under C16).", ref="3/C18"),
  "C19": dict(cat="exploration", technique="stand-alone gcc -std=c17 -Wall builds of generated sources; exhaustive rule-id injectivity contract over all rule pairs per (cell, entity type) with compiled witnesses; audit-hook rejection monitor",
-   text="Every accepted case of the corpora is generated and compiled stand-alone; all pairs of rules ffcx creates (default/Gauss-Jacobi/GLL x degree 0..30, vertex) per cell and entity type are tested for distinct ids (names embedding the id would otherwise collide) and colliding / sampled pairs are compiled; 16 unsupported constructs must raise before any compiler process is launched or else agree with the oracle.",
+   text="Every accepted case of the corpora is generated and compiled stand-alone; all pairs of rules ffcx creates (default/Gauss-Jacobi/GLL x degree 0..30, vertex) per cell and entity type are tested for distinct ids (names embedding the id would otherwise collide) and colliding / sampled pairs are compiled; 19 unsupported constructs must raise before any compiler process is launched or else agree with the oracle.",
    note="Exhaustive over rule pairs only. Two defects found and fixed (rule id collisions; jn/yn undeclared under -std=c17).", ref="3/C19"),
  "C20": dict(cat="exploration", technique="`python -m ffcx` executed in throw-away directories; stand-alone gcc build + nm of the written files; alias monitor; kernels reached through the alias symbols compared bitwise with the JIT path's source (same flags) and with the oracle; option-source lattice",
    text="Demo and generated UFL files (named forms, expressions, elements, file names needing sanitising, -i/-o/-n/-d styles, scalar types, numba) are compiled by the command-line entry point; the source must compile alone, define everything the header declares, expose exactly the named aliases, and the kernels behind the aliases must equal the JIT kernels bitwise and the oracle; each option is run under all 8 subsets of {CLI, $PWD json, $XDG json} and the effective value must follow the documented priority.",
